@@ -179,7 +179,10 @@ def runUserSection (r : Report) (sec : Section) (user : String) (probes : List N
         -- NewConsistentHash() = NewCustomConsistentHash(minReplicas, Hash)
         let s := ops.foldl (step H) (CH.new (minReplicas : Int))
         let m := ops.foldl (specStep s.replicas) []
-        let outs := probes.map fun p => get H s p
+        -- cache.New with a single configured node returns that node itself (no ring)
+        let direct := user = "cache" && ops.length == 1
+        if direct then r := r.addCover "build-single-node-no-ring"
+        let outs := probes.map fun p => if direct then (match ops with | [.addW n _] => Outcome.node n | _ => .none) else get H s p
         let mine := "g=" ++ ",".intercalate (outs.map fun o => match o with
           | .node n => n.repr | .none => "-" | .panic => "PANIC")
         let impl := joinSp l.obs
@@ -195,7 +198,7 @@ def runUserSection (r : Report) (sec : Section) (user : String) (probes : List N
         | some addrs =>
           for (k, a) in probes.zip addrs do
             let o : Outcome := if a = "-" then .none else if a = "PANIC" then .panic else .node { kind := kind, repr := a }
-            if !memberOk m o then
+            if !direct && !memberOk m o then
               r := r.violation sec.idx l.idx s!"member-only: {user} dispatch of {showOutcome (.node k)} goes to {a}, conf=[{conf}]"
     | _ => r := r.mismatch sec.idx l.idx "bad-op" (joinSp l.op)
   return r
